@@ -12,8 +12,9 @@ import SleapVerif.Model.Eval
 
 The matching / VOC / mOKS / visibility part runs at `Rat` (exact), distances and PCK at `Float`.
 `recall <t> <npig> <ms:list rat>` → `recallAt` at Rat.
-`pairs <gt videos: list (kind filename dataset|nan)> <pr videos> <gt frames: list (video frame_idx n_user_inst)>
-       <pr frames: list (video frame_idx)>` → `<asis:ok|raise> <k> (gt frame pos, pr frame pos)…` (`find_frame_pairs`).
+`pairs <user_labels_only> <gt videos: list (kind filename dataset|nan)> <pr videos>
+       <gt frames: list (video frame_idx <is_user flag per instance>)> <pr frames: list (video frame_idx)>`
+   → `ok <k> (gt frame pos, pr frame pos, n, positions of the n enumerated gt instances)…` (`find_frame_pairs`).
 -/
 open SleapVerif SleapVerif.Proto SleapVerif.Oks SleapVerif.Eval
 
@@ -117,18 +118,24 @@ def handle (line : String) : String :=
         let vk : P VideoKey := do
           let k ← nat; let f ← nat; let d ← orat
           pure { kind := k, filename := f, dataset := d.map (fun q => q.num.toNat) }
+        let userOnly ← bool
         let gv ← listOf vk; let pv ← listOf vk
-        let gf ← listOf (do let v ← nat; let i ← nat; let n ← nat; pure (v, i, n))
+        let gf ← listOf (do let v ← nat; let i ← nat; let fl ← listOf bool; pure (v, i, fl))
         let pf ← listOf (do let v ← nat; let i ← nat; pure (v, i))
-        pure (gv, pv, gf, pf)) rest with
-    | some (gv, pv, gf, pf) =>
-      let gt : Labels Nat := { videos := gv, frames := gf.zipIdx.map (fun ((v, i, n), k) =>
-        { video := v, frameIdx := i, insts := List.replicate n k }) }
+        pure (userOnly, gv, pv, gf, pf)) rest with
+    | some (userOnly, gv, pv, gf, pf) =>
+      -- gt instance `j` of frame `k` is the number `k*1000 + j`; `isUser` reads the recorded flags
+      let flags : List (List Bool) := gf.map (fun (_, _, fl) => fl)
+      let isUser : Nat → Bool := fun g => ((flags.getD (g / 1000) []).getD (g % 1000) false)
+      let gt : Labels Nat := { videos := gv, frames := gf.zipIdx.map (fun ((v, i, fl), k) =>
+        { video := v, frameIdx := i, insts := (List.range fl.length).map (fun j => k * 1000 + j) }) }
       let pr : Labels Nat := { videos := pv, frames := pf.zipIdx.map (fun ((v, i), k) =>
         { video := v, frameIdx := i, insts := [k] }) }
-      let asis := "ok"   -- HEAD's `find_frame_pairs` is total (the pre-5b8ee29 raise is a regression record only)
-      let ps := findFramePairs gt pr
-      s!"{asis} {ps.length} " ++ " ".intercalate (ps.map (fun (a, b) => s!"{a.insts.headD 0} {b.insts.headD 0}"))
+      let ps := evaluatorPairs userOnly isUser gt pr
+      -- the gt frame position is recovered from (video, frame_idx); instance positions from the tags
+      let gpos (a : LFrame Nat) : Nat := (gf.zipIdx.find? (fun ((v, i, _), _) => v == a.video && i == a.frameIdx)).map (·.2) |>.getD 0
+      s!"ok {ps.length} " ++ " ".intercalate (ps.map (fun (a, b) =>
+        s!"{gpos a} {b.insts.headD 0} {a.insts.length} " ++ " ".intercalate (a.insts.map (fun g => toString (g % 1000)))))
     | none => "bad-op"
   | "recall" :: rest =>
     match runP (do let t ← rat; let n ← nat; let ms ← listOf rat; pure (t, n, ms)) rest with
